@@ -434,11 +434,11 @@ impl TmplGroup {
             w.paren(|w| {
                 w.function(|w| {
                     w.expr_stmt(|w| {
-                        write!(w, "var G={{}}")?;
+                        write!(w, "var G=Object.create(null)")?;
                         Ok(())
                     })?;
                     w.expr_stmt(|w| {
-                        write!(w, "var R={{}}")?;
+                        write!(w, "var R=Object.create(null)")?;
                         Ok(())
                     })?;
                     self.write_group_global_content(w)?;
@@ -469,11 +469,11 @@ impl TmplGroup {
             w.paren(|w| {
                 w.function(|w| {
                     w.expr_stmt(|w| {
-                        write!(w, "var G={{}}")?;
+                        write!(w, "var G=Object.create(null)")?;
                         Ok(())
                     })?;
                     w.expr_stmt(|w| {
-                        write!(w, "var R={{}}")?;
+                        write!(w, "var R=Object.create(null)")?;
                         Ok(())
                     })?;
                     self.write_group_global_content(w)?;
